@@ -34,6 +34,7 @@ type scriptReader struct {
 	failAt       int   // absolute byte offset at which the source fails (-1 = only at end of data)
 	failErr      error // error returned at failAt (nil => io.EOF)
 	failWithData bool  // deliver the last bytes and the error in the same call
+	errWithFull  bool  // also when those last bytes fill the request completely (io.Reader allows n == len(p) with err != nil)
 	transient    bool  // the failure is reported once; later calls deliver the rest of the data
 	repeat       int   // transient only: the failure is reported this many times in a row first (0 = once)
 	stallAt      int   // absolute byte offset at which the source stalls: stallCount reads return (0, nil) there (-1 = never)
@@ -81,13 +82,13 @@ func (s *scriptReader) Read(p []byte) (int, error) {
 	}
 	copy(p, s.data[s.off:s.off+n])
 	s.off += n
-	if s.off >= limit && (n < len(p) || n == 0) {
+	if s.off >= limit && (n < len(p) || n == 0 || (s.errWithFull && len(p) > 0)) {
 		// the source is exhausted / fails here
 		e := s.failErr
 		if e == nil {
 			e = io.EOF
 		}
-		if n > 0 && !s.failWithData {
+		if n > 0 && !s.failWithData && !(s.errWithFull && n == len(p)) {
 			s.events = append(s.events, rdEvent{Req: len(p), N: n})
 			return n, nil // error comes with the next call
 		}
@@ -447,7 +448,6 @@ func withGlobalRand(rd io.Reader, f func(src io.Reader)) {
 	defer func() { crand.Reader = saved; globalRandMu.Unlock() }()
 	f(crand.Reader)
 }
-
 
 // stackHungryReader uses a lot of stack inside Read (recursion), so that the CALLER's stack is moved while the
 // library waits for its randomness - the moment a raw address of the candidate buffer goes stale.
